@@ -1,0 +1,25 @@
+//go:build verif
+
+package otp
+
+import (
+	"hash"
+	"sync"
+)
+
+// Verification hooks (build tag "verif" only; absent from default builds).
+
+// VerifSwapHMAC replaces the HMAC constructor of table slot `slot` and returns the previous one.
+func VerifSwapHMAC(slot int, f func(key []byte) hash.Hash) func(key []byte) hash.Hash {
+	old := hmacPools[slot].new
+	hmacPools[slot].new = f
+	return old
+}
+
+// VerifHMACSlots reports the number of HMAC table slots.
+func VerifHMACSlots() int { return len(hmacPools) }
+
+// VerifPools returns the two scratch-buffer pools (RFC 4226 counter buffer, RFC 6287 message buffer).
+func VerifPools() (*sync.Pool, *sync.Pool) {
+	return &rfc4226BufPool, &rfc6287BufPool
+}
